@@ -4,6 +4,7 @@ import (
 	"fmt"
 	"math/rand"
 	"os"
+	"path/filepath"
 	"sort"
 
 	"github.com/akalin/gopar/par2"
@@ -43,7 +44,7 @@ func init() {
 	}})
 }
 
-var p2FixedScenarios = []string{"insert-at-boundary", "swap-files", "append-garbage", "lost-trailing-zeros", "k0-no-volumes", "damage-no-volumes", "periodic-J"}
+var p2FixedScenarios = []string{"zero-pivot-255", "zero-pivot-255-b", "insert-at-boundary", "swap-files", "append-garbage", "lost-trailing-zeros", "k0-no-volumes", "damage-no-volumes", "periodic-J"}
 
 func p2Cases(id, tier string, seed int64, n int) []core.Case {
 	var cs []core.Case
@@ -127,6 +128,23 @@ func fixedSet(name string) (scen.Set, func(*scen.State, *rand.Rand) []scen.Op, s
 		return two, func(st *scen.State, r *rand.Rand) []scen.Op {
 			return []scen.Op{{Kind: "overwrite", A: 0, Pos: 3, G: []byte{0x55}}}
 		}, "none"
+	case "zero-pivot-255", "zero-pivot-255-b":
+		// Constants 2^n of slices 1 and 129 have n = 2 and 259 (difference 257),
+		// so with recovery exponents 0 and 255 their 2x2 block is singular:
+		// elimination meets a zero pivot and must swap in a later row. With a
+		// third missing slice and exponent 256 the 3x3 system is non-singular.
+		s := scen.Set{SliceSize: 4, Blocks: 258, Content: "random", Files: []scen.File{{Name: "z.bin", Data: scen.GenData(rng, "random", 4*150+2, 4)}}}
+		third := 40
+		if name == "zero-pivot-255-b" {
+			third = 140
+		}
+		return s, func(st *scen.State, r *rand.Rand) []scen.Op {
+			return []scen.Op{
+				{Kind: "overwrite", A: 0, Pos: 4 * 1, G: []byte{1, 2, 3, 4}},
+				{Kind: "overwrite", A: 0, Pos: 4 * 129, G: []byte{5, 6, 7, 8}},
+				{Kind: "overwrite", A: 0, Pos: 4 * third, G: []byte{9, 10, 11, 12}},
+			}
+		}, "keep-0-255-256"
 	case "periodic-J":
 		data := make([]byte, 17)
 		for i := range data {
@@ -234,6 +252,20 @@ func buildP2Scenario(r *core.R, p p2ScenParams) *p2Scenario {
 	sc.volsTotal = len(vols)
 	switch {
 	case volMode == "keep":
+	case volMode == "keep-0-255-256":
+		// keep only the volumes holding exponents 0 and 255.. (gopar names them
+		// vol00+01 and vol255+03); everything between is lost
+		for _, v := range vols {
+			var a, b int
+			bn := filepath.Base(v)
+			if i := indexFold(bn, ".vol"); i >= 0 {
+				fmt.Sscanf(bn[i:], ".vol%d+%d.par2", &a, &b)
+			}
+			if a != 0 && a != 255 {
+				os.Remove(v)
+				sc.volsLost++
+			}
+		}
 	case volMode == "none":
 		for _, v := range vols {
 			os.Remove(v)
